@@ -112,6 +112,7 @@ package setec
 //@   ensures [C16 lookupint.success] err == nil ==> (sec != nil && has(s.active.m, name) && has(s.active.f, name))
 //@   ensures [C16 lookupint.fail] err != nil ==> sec == nil
 //@   ensures [C16 lookupint.not-failed-by-others-cancellation] (err != nil && (errIs(err, context.DeadlineExceeded) || errIs(err, context.Canceled)) && ctxErrAt(ctx, clock) == nil) ==> sfWon
+//@   at call Do: assert [C11,C12,C16 lookupint.flight-is-keyed-by-the-name-and-apart-from-polls] arg_key == "lookup:" + name
 //@   loop 0
 //@     invariant [state] storeInv(s) && !s.active.Mutex && ctx != nil && s.client != nil && handlesKept(s)
 //@     invariant [values] !old(has(s.active.m, name)) ==> valuesKept(s)
@@ -245,12 +246,14 @@ package setec
 //@   loop 0
 //@     invariant [bound] 0 <= iter && iter <= len(c.Structs)
 //@     invariant [svs-nonnil] forall j int :: (0 <= j && j < len(svs)) ==> svs[j] != nil
+//@     invariant [one-per-struct] len(svs) == iter
 //@     invariant [same-when-no-structs] iter == 0 ==> len(sec) == len(c.Secrets)
 //@     invariant [prefix] len(sec) >= len(c.Secrets) && (forall i int :: (0 <= i && i < len(c.Secrets)) ==> sec[i] == c.Secrets[i])
 //@   loop 1
 //@     invariant [nonempty] forall j int :: (0 <= j && j < iter) ==> sec[j] != ""
 //@   ensures [C10 names.nonempty-distinct] err == nil ==> ((forall j int :: (0 <= j && j < len(sec)) ==> sec[j] != "") && (forall i int, j int :: (0 <= i && i < j && j < len(sec)) ==> sec[i] != sec[j]))
 //@   ensures [C10 names.empty-config] (err == nil && len(c.Secrets) == 0 && len(c.Structs) == 0) ==> len(sec) == 0
+//@   ensures [C20 names.no-struct-is-skipped] err == nil ==> len(svs) == len(c.Structs)
 //@   ensures [C20 names.fields-nonnil] err == nil ==> (forall j int :: (0 <= j && j < len(svs)) ==> svs[j] != nil)
 //@   ensures [C10,C20 names.listed-included] err == nil ==> (forall i int :: (0 <= i && i < len(c.Secrets)) ==> (exists j int :: 0 <= j && j < len(sec) && sec[j] == c.Secrets[i]))
 
@@ -297,6 +300,7 @@ package setec
 //@   ensures [C10 newstore.fail] err != nil ==> s == nil
 //@   ensures [C10,C12 newstore.inv] err == nil ==> (s != nil && storeInv(s) && !s.active.Mutex && s.client == cfg.Client && s.allowLookup == cfg.AllowLookup && s.expiryAge == cfg.ExpiryAge)
 //@   ensures [C10 newstore.all-listed-have-values] err == nil ==> (forall i int :: (0 <= i && i < len(cfg.Secrets)) ==> (has(s.active.m, cfg.Secrets[i]) && s.active.m[cfg.Secrets[i]].Declared))
+//@   ensures [C11,C16 newstore.the-poller-runs-whenever-polling-is-enabled] err == nil ==> goStarts == old(goStarts) + ite(cfg.PollInterval >= 0, 1, 0)
 //@   loop 0
 //@     invariant [state] s != nil && allocated(s) && s.active.m != nil && allocated(s.active.m) && s.active.f != nil && s.active.w != nil && allocated(s.active.f) && allocated(s.active.w) &&
 //@        s.timeNow != nil && s.logf != nil && s.client == cfg.Client && cfg.Client != nil && !s.active.Mutex && s.allowLookup == cfg.AllowLookup && s.expiryAge == cfg.ExpiryAge && ctx != nil
@@ -321,8 +325,8 @@ package setec
 //@   ensures [C12,C20 fapply.inv] storeInv(s) && !s.active.Mutex && handlesKept(s) && valuesKept(s)
 //@   ensures [C16 fapply.gate] (!old(has(s.active.m, fullName)) && !s.allowLookup) ==> (err != nil && net == old(net) && sameEntries(s))
 //@   ensures [C20 fapply.known-no-request] old(has(s.active.m, fullName)) ==> net == old(net)
-//@   at call ValueOf: assert [C20 fapply.bytes-private-copy] boxfresh(arg_v)
-//@   at call SetBytes: assert [C20 fapply.setbytes-private-copy] fresh(arg_x)
+//@   at call ValueOf: assert [C12,C18,C20 fapply.bytes-private-copy] boxfresh(arg_v)
+//@   at call SetBytes: assert [C12,C18,C20 fapply.setbytes-private-copy] fresh(arg_x)
 //@   ensures [C20 fapply.plain-field-is-always-stored] (err == nil && !f.isJSON && f.unmarshal == nil) ==> fieldStores == old(fieldStores) + 1
 //@ func (*Fields).Apply(f, ctx, s) (err)
 //@   requires f != nil && storeInv(s) && !s.active.Mutex && ctx != nil && s.client != nil
@@ -339,6 +343,7 @@ package setec
 //@ func (*Store).Refresh(s, ctx) (err)
 //@   requires s != nil && ctx != nil && storeInv(s) && !s.active.Mutex
 //@   ensures [C12 refreshcall.inv] storeInv(s) && !s.active.Mutex && sameEntries(s) && handlesKept(s)
+//@   at call DoChan: assert [C11,C12 refreshcall.one-flight-for-all-polls] arg_key == "poll"
 //@ callers [C11,C19 poll-only-in-singleflight] (*client/setec.Store).poll only-from (*client/setec.Store).Refresh$1
 //@ callers [C11,C19 apply-only-in-singleflight] (*client/setec.Store).applyUpdates only-from (*client/setec.Store).Refresh$1
 //@ callers [C11 refresh-closure-only-via-dochan] (*client/setec.Store).Refresh$1 only-from (*client/setec.Store).Refresh (value)
@@ -387,12 +392,14 @@ package setec
 //@   ensures [C12 watcher.unlocked] !s.active.Mutex
 //@   ensures [C15 watcher.consumes-no-signal] slotRecvs == old(slotRecvs)
 //@   ensures [C12 watcher.inv] storeInv(s)
+//@   ensures [C12,C19 watcher.no-handle-is-ever-withdrawn] handlesKept(s)
 
 // ---- file client construction ---------------------------------------------------------------
 //@ func NewFileClient(path) (fc, err)
 //@   ensures [C09,C13 newfileclient.versions-nonzero] err == nil ==> (fc != nil && fc.db != nil && (forall n string :: has(fc.db, n) ==> (fc.db[n] != nil && fc.db[n].Version != 0 && n != "")))
 //@   loop 0
 //@     invariant [db] db != nil && allocated(db) && (forall n string :: has(db, n) ==> (db[n] != nil && db[n].Version != 0 && n != ""))
+//@     invariant [C18 newfileclient.values-are-taken-verbatim-from-the-file] forall n string :: has(db, n) ==> (allocated(db[n]) && has(input, n) && input[n].Secret != nil && db[n].Version == input[n].Secret.Version && (input[n].Secret.TextValue == "" ==> (ref(db[n].Value) == ref(input[n].Secret.Value) && len(db[n].Value) == len(input[n].Secret.Value))) && (input[n].Secret.TextValue != "" ==> (allocated(db[n].Value) && bytes(db[n].Value) == input[n].Secret.TextValue)))
 
 // ---- network client -------------------------------------------------------------------------
 //@ func do(ctx, c, path, req) (resp, err)
@@ -402,6 +409,7 @@ package setec
 //@   ensures [C16 do.transport-error-is-wrapped] (httpCalls == old(httpCalls) + 1 && lastDoErr != nil) ==> (err != nil && errIs(err, lastDoErr))
 //@   ensures [C09 do.one-request] httpCalls == old(httpCalls) || httpCalls == old(httpCalls) + 1
 //@   ensures [C09 do.sentinel-only-from-status] (err == api.ErrNotFound ==> (httpCalls == old(httpCalls) + 1 && lastDoErr == nil && lastStatus == 404)) && (err == api.ErrAccessDenied ==> (httpCalls == old(httpCalls) + 1 && lastDoErr == nil && lastStatus == 403)) && (err == api.ErrValueNotChanged ==> (httpCalls == old(httpCalls) + 1 && lastDoErr == nil && lastStatus == 304))
+//@   at call do: assert [C10,C16 do.request-ends-with-the-callers-context] reqCtx(ref(arg_req)) == ctx
 //@   at call Set: assert [C08 do.headers] (arg_key == "Content-Type" && arg_value == "application/json") || (arg_key == "Sec-X-Tailscale-No-Browsers" && arg_value == "setec")
 //@ func (Client).GetIfChanged(c, ctx, name, oldVersion) (sv, err)
 //@   ensures [C09,C16 clientgic.returns-the-request-outcome-unchanged] (defined(call_do_0) && sv == call_do_0 && err == call_do_1) || (defined(call_Get_0) && sv == call_Get_0 && err == call_Get_1)
@@ -447,7 +455,7 @@ package setec
 //@   ensures [C15 updatererr.only-reports] r == old(u.err) && u.err == old(u.err) && slotRecvs == old(slotRecvs) && builderCalls == old(builderCalls) && !u.mu
 //@ func NewUpdater(ctx, s, name, newValue) (u, err)
 //@   requires storeInv(s) && !s.active.Mutex && ctx != nil && s.client != nil && newValue != nil
-//@   interference at newValue writers (*client/setec.Store).applyUpdates assume storeInv(s) && !s.active.Mutex && net == old(net) && has(s.active.w, name) == old(has(s.active.w, name)) && s.active.w[name] == old(s.active.w[name]) &&
+//@   interference at newValue writers (*client/setec.Store).applyUpdates assume storeInv(s) && !s.active.Mutex && net == old(net) && has(s.active.w, name) == old(has(s.active.w, name)) && s.active.w[name] == old(s.active.w[name]) && handlesKept(s) &&
 //@        (forall c ref :: isSlot(c) ==> (chlen(c) >= old(chlen(c)) && (old(chlen(c)) <= 1 ==> chlen(c) <= 1)))
 //@   at call newValue: assert [C15 newupdater.watcher-registered-before-the-value-is-built] has(s.active.w, name) && len(s.active.w[name]) >= old(len(s.active.w[name])) + 1
 //@   ensures [C15 newupdater.ready-for-get] err == nil ==> (u != nil && !u.mu && u.newValue != nil && u.logf != nil && u.w.Secret != nil && u.w.ready != nil && isSlot(u.w.ready) && chcap(u.w.ready) == 1 && chlen(u.w.ready) >= 0 && chlen(u.w.ready) <= 1)
@@ -455,3 +463,4 @@ package setec
 //@   ensures [C15 newupdater.consumes-no-signal] slotRecvs == old(slotRecvs)
 //@   ensures [C16 newupdater.gate] (!old(has(s.active.m, name)) && !s.allowLookup) ==> (err != nil && net == old(net) && builderCalls == old(builderCalls))
 //@   ensures [C12 newupdater.unlocked] !s.active.Mutex && storeInv(s)
+//@   ensures [C12,C19 newupdater.no-handle-is-ever-withdrawn] handlesKept(s)
